@@ -469,7 +469,7 @@ def c09(tier):
             continue            # a silent success can only show where everything else is fine
         for g in given:
             gb = _strip_inst(g)
-            if gb in gate_inputs and flips_done.get((year, gb), 0) < per_gate:
+            if gb in gate_inputs and (flips_done.get((year, gb), 0) < per_gate or "/d" in sc["sid"]):     # a directed return: every gate it supplies
                 read_gates.add(g)
                 flips_done[(year, gb)] = flips_done.get((year, gb), 0) + 1
         for g in sorted(read_gates):
